@@ -8,6 +8,7 @@ CONSTANTS
   SpellNames = {}
   EmitTrees = FALSE
   Alpha = "A"
+  Contexts = {}
   MaxLen = 3
   TailLen = 1
   DeepReps = {}
